@@ -248,8 +248,14 @@ def _store_all_routes(Fxp, carrier, shape, signed, n_word, n_frac, r, o, routes=
                 x.set_val(carrier)
             else:
                 if shape == ():
-                    x = _mk(Fxp, signed, n_word, n_frac, r, o, np.zeros(3))
+                    x = _mk(Fxp, signed, n_word, n_frac, r, o, np.zeros(3, dtype=complex if isinstance(carrier, (complex, np.complexfloating)) else float))
                     x[1] = carrier
+                    # ... and into a scalar object through the empty index / the ellipsis (a complex scalar for a complex value)
+                    x0 = _mk(Fxp, signed, n_word, n_frac, r, o, 0j if isinstance(carrier, (complex, np.complexfloating)) else 0.0)
+                    x0[()] = carrier
+                    x0.get_val()
+                    x1 = _mk(Fxp, signed, n_word, n_frac, r, o, 0j if isinstance(carrier, (complex, np.complexfloating)) else 0.0)
+                    x1[...] = carrier
                 elif len(shape) == 1:
                     x = _mk(Fxp, signed, n_word, n_frac, r, o, np.zeros((2,) + shape))
                     x[1] = carrier
@@ -389,7 +395,7 @@ def run_case(case, ctx):
         vals = (vals * 8)[:8]
         cs = [complex(float(vals[2 * j]), float(vals[2 * j + 1])) for j in range(4)]
         for car, shape in ((cs[0], ()), (np.array(cs), (4,)), (np.array(cs, dtype=np.complex128).reshape(2, 2), (2, 2)), (list(cs), (4,)), (np.complex128(cs[1]), ())):
-            _store_all_routes(Fxp, car, shape, s, w, nf, r, o, routes=('constructor', 'call', 'set_val'))
+            _store_all_routes(Fxp, car, shape, s, w, nf, r, o, routes=('constructor', 'call', 'set_val') + (('setitem',) if shape == () else ()))
         # complex64 (float32 components): in-range first element, later ones overflow in both directions; words of 25+ bits
         if o == 'saturate' and 0 <= nf and w >= 20:
             lo_, hi_ = R.code_range(s, w)
